@@ -265,6 +265,24 @@ def oracle(ctx):
         for nm, x_, y_ in zip(["aa", "ac"], g2q, r2q):
             if x_ is None or not torch.allclose(x_, y_, rtol=1e-7, atol=1e-10):
                 ctx.fail("oracle", "mcquad:dummy1d:grad2:" + nm, info, x_, y_)
+    # the collection phase continues from the burned-in state (seeded defect C16/3): target N(30, 1), chain started at 0 with
+    # unit steps; after 1500 burn-in steps every collected sample lies in 30 +- 8 (> 6 sigma), whatever the seed
+    for seed in range(3):
+        torch.manual_seed(100 + seed)
+        fcalls = []
+
+        def fcol(x):
+            fcalls.append(float(x))
+            return x
+        r = float(mcquad(fcol, lambda x: -(x - 30.0) ** 2 / 2, torch.tensor(0.0, dtype=DT), method="mh", nsamples=30, nburnout=1500,
+                         step_size=1.0))
+        ctx.count(("mh-burn-in-carried-over", seed))
+        smp = fcalls[1:]
+        if len(smp) != 30 or min(smp) < 22.0 or max(smp) > 38.0 or abs(r - 30.0) > 5.0:
+            ctx.fail("oracle", "mcquad:mh:burn-in-state-discarded", {"target": "N(30,1)", "x0": 0.0, "nburnout": 1500, "nsamples": 30, "seed": 100 + seed},
+                     {"mean": r, "min": min(smp) if smp else None, "max": max(smp) if smp else None, "n": len(smp)},
+                     "30 samples within 30 +- 8")
+            break
     # mh over seeds, statistical tolerance (search only in quick tier)
     if ctx.thorough():
         for seed in range(6):
